@@ -211,6 +211,7 @@ func runWorldB(rc *RunCtx, prop string) *RunResult {
 	opsPerDID := 1 + T.Draw(6, "cfg.opsPerDid")
 	maxSteps := 150 + T.Draw(900, "cfg.steps")
 	w.useUnpub = T.Draw(3, "cfg.unpub") == 0
+	perSuffix := w.useUnpub && T.Draw(2, "cfg.unpub.persuffix") == 0 // a store indexed by DID: one pending operation per DID
 
 	if T.Draw(6, "cfg.wide") == 0 { // many DIDs, large batches: transactions with many operations
 		nDIDs = 5 + T.Draw(6, "cfg.dids.wide")
@@ -308,7 +309,9 @@ func runWorldB(rc *RunCtx, prop string) *RunResult {
 
 				// a transaction that cannot be stored contributes nothing: in particular the unpublished copies of
 				// its operations must still be there when the store write fails (first delivery only)
-				if w.useUnpub && w.curObs.Honest && w.curObs.Puts == 0 && !w.replayed(w.curObs) {
+				// (not with a store indexed by DID: there any earlier transaction of the DID - a replayed one, say - cleans
+				// the DID's pending entry up, whichever operation it holds)
+				if w.useUnpub && !w.unpub.PerSuffix && w.curObs.Honest && w.curObs.Puts == 0 && !w.replayed(w.curObs) {
 					for _, op := range w.curObs.Included {
 						// (a retried request is byte-identical to its original: anchoring either of them legitimately
 						// removes an unpublished copy of "that request" - the oracle speaks about unique requests only)
@@ -328,6 +331,7 @@ func runWorldB(rc *RunCtx, prop string) *RunResult {
 	}
 
 	w.unpub = simenv.NewUnpub(k, "unpub")
+	w.unpub.PerSuffix = perSuffix
 	w.unpub.Fault = func(op string) error {
 		if op == "Put" && w.fault("unpub.err") {
 			return errors.New("injected unpublished-store failure")
@@ -760,7 +764,8 @@ func (w *bWorld) clientStep(d *bDID) {
 	hash := v.P.MultihashAlgorithms[0]
 
 	// patient mode: wait until everything submitted so far for this DID is anchored and stored
-	patient := w.useUnpub || k.Draw(3, "client.patient") == 0
+	// (with an unpublished-operation store clients are mostly patient - pending copies then never pile up - but not always)
+	patient := (w.useUnpub && k.Draw(2, "client.patient.unpub") != 0) || k.Draw(3, "client.patient") == 0
 	if patient && len(d.Ops) > 0 {
 		k.WaitUntil("client.wait-settled", func() bool { return w.settled(d) || w.faultsOffAndIdle() })
 
@@ -1107,9 +1112,14 @@ func (w *bWorld) submit(op *bOp) {
 	op.Version = w.proto.CurrentVersion().P.GenesisTime
 	op.M.MaxDelta = int64(w.proto.CurrentVersion().P.MaxOperationTimeDelta)
 
-	qBefore, uBefore := len(w.q.Model), w.unpub.Size()
-	_ = qBefore
-	_ = uBefore
+	// the unpublished copies this DID had before the submission (C15: a refused operation leaves no trace - it must not
+	// take anybody else's pending copy with it either)
+	pendingBefore := map[string]int{}
+	for _, e := range w.unpub.Ops[d.Suffix] {
+		pendingBefore[simenv.ReqKey(e.OperationRequest)]++
+	}
+
+	putsBefore := w.store.PutN
 
 	// now and then the request is exactly as large as the protocol allows (sent with trailing whitespace)
 	if max := int(w.proto.CurrentVersion().P.MaxOperationSize); op.Byz == "" && !op.Dup && len(op.Req)+1 < max && k.Draw(15, "submit.maxsize") == 0 {
@@ -1190,6 +1200,20 @@ func (w *bWorld) submit(op *bOp) {
 
 		if w.inUnpub(op) {
 			w.fail("C15", "intake/refused-but-unpublished", fmt.Sprintf("op%d was refused (%d %s) but is in the unpublished-operation store", op.ID, code, short40(op.Err)))
+		}
+
+		// pending copies of OTHER operations of this DID are still there, unless the observer has stored them meanwhile
+		pendingNow := map[string]int{}
+		for _, e := range w.unpub.Ops[d.Suffix] {
+			pendingNow[simenv.ReqKey(e.OperationRequest)]++
+		}
+
+		for key, n := range pendingBefore {
+			// (only when the observer stored nothing meanwhile: processing a transaction cleans pending copies up)
+			if o := w.byKey[key]; key != op.Key && pendingNow[key] < n && o != nil && o.Stored == 0 && !w.replayedOp(o) && w.store.PutN == putsBefore {
+				w.fail("C15", "intake/refusal-removed-pending-copy", fmt.Sprintf("op%d (%s did%d) was refused (%d %s); the unpublished copy of op%d (%s), which is not anchored yet, disappeared with it",
+					op.ID, op.Type, d.Idx, code, short40(op.Err), o.ID, o.Type))
+			}
 		}
 
 		k.Count("probe:refused-at-intake")
@@ -1326,6 +1350,18 @@ func (w *bWorld) unpubConfigured(t operation.Type) bool {
 	return false
 }
 
+// replayedOp: was the operation part of a transaction whose anchor string somebody anchored again (its unpublished copy
+// is then cleaned up through that copy as well)?
+func (w *bWorld) replayedOp(op *bOp) bool {
+	for _, ti := range op.Txns {
+		if ti < len(w.txns) && w.replayed(w.txns[ti]) {
+			return true
+		}
+	}
+
+	return false
+}
+
 func (w *bWorld) inUnpub(op *bOp) bool {
 	for _, e := range w.unpub.Ops[op.DID.Suffix] {
 		if simenv.ReqKey(e.OperationRequest) == op.Key {
@@ -1440,7 +1476,17 @@ func (w *bWorld) byzantineIntake(d *bDID) {
 	raw := &workload.RawSpec{Suffix: d.Suffix, Hash: d.Hash, Patches: patches}
 	kind := ""
 
-	switch k.Draw(4, "byz.kind") {
+	switch k.Draw(6, "byz.kind") {
+	case 4: // update re-committing to the key it reveals, the commitment spelt under the protocol's OTHER hash algorithm
+		raw.Hash = d.updAlg
+		raw.Type, raw.RevealKey, raw.NextUpdateCommit = operation.TypeUpdate, d.Upd, d.Upd.Commitment(simenv.SHA2_256+simenv.SHA2_512-d.updAlg)
+		kind = "update-self-loop-across-algorithms"
+	case 5: // the same for a recover
+		raw.Hash = d.recAlg
+		other := simenv.SHA2_256 + simenv.SHA2_512 - d.recAlg
+		raw.Type, raw.RevealKey = operation.TypeRecover, d.Rec
+		raw.NextRecoveryCommit, raw.NextUpdateCommit = d.Rec.Commitment(other), w.newKey(d).Commitment(other)
+		kind = "recover-self-loop-across-algorithms"
 	case 0: // update re-committing to the key it reveals
 		raw.Type, raw.RevealKey, raw.NextUpdateCommit = operation.TypeUpdate, d.Upd, d.Upd.Commitment(d.Hash)
 		kind = "update-self-loop"
